@@ -43,6 +43,13 @@ Kernel ==
       [ args |-> <<"Q", "two_theta">>, out |-> <<"fixed", "angstrom">>, data |-> {"Q"},
         trig |-> {"two_theta"},
         terms |-> { Mono(0, 0, [Q |-> -2]) }, aux |-> {} ],
+    (* Q_vec = 2 pi / lambda * (e_i - e_f): three components in the inverse unit of the wavelength;   *)
+    (* the beams enter as directions only.  The components are products with vector3 operands, which *)
+    (* scipp holds in double: no single-precision promise is read into the property (weakest reading) *)
+    Q_elements_from_wavelength |->
+      [ args |-> <<"wavelength", "incident_beam", "scattered_beam">>, out |-> <<"inv", "wavelength">>,
+        data |-> {}, trig |-> {"incident_beam", "scattered_beam"},
+        terms |-> { Mono(0, 0, [wavelength |-> -2]) }, aux |-> {} ],
     dspacing_from_wavelength |->
       [ args |-> <<"wavelength", "two_theta">>, out |-> <<"fixed", "angstrom">>, data |-> {"wavelength"},
         trig |-> {"two_theta"},
